@@ -29,7 +29,10 @@ META = {
             "VbkBlock::getHash over several epochs with tiny injected caches (forced evictions), clears, precomputed "
             "entries, several threads, every single-field flip, and one VbkBlock object reused as target of setters / "
             "DeserializeFromRaw / DeserializeFromVbkEncoding (with and without precalculated hash) / copy and move "
-            "assignment is compared with a cache-free recomputation after every step.",
+            "assignment is compared with a cache-free recomputation after every step. That the ethash mutex really "
+            "serialises getOrDefault (one atomic step in the model; C17_unlocked_getOrDefault_refuted shows what breaks "
+            "otherwise) is probed deterministically with an instrumented EthashCacheI: a second thread is released "
+            "while the first is inside the factory and must not get in (rel and tsan variants).",
     "note": "Honest limit: vProgPoW itself is an oracle (Section variable), only its caching is proved; data races are "
             "observed by TSan (header-cache hit path and lru11 under contention in quick; real hashing under TSan only in "
             "thorough, ~100 s per epoch), not proved. A changed eviction policy is not a purity violation: policy "
@@ -113,6 +116,7 @@ def gen_pow_cases(ctx, tier, variant):
             cases.append(("b%d" % (bi + 1), "blk", [str(sd + 20 + bi)] + ops))
         cases.append(("b0", "blk", [str(sd + 19)] + "g d0.2 g d0.3 D1.1 d0.4 p v1.2 A0.1 d1.3 m1.4 v0.1 V0.2 d0.2 s8 d0.2 a1.1 g".split()))
         cases.append(("p3", "powhit", ["4", str(sd + 2), "60"]))
+        cases.append(("p7", "serial", [str(sd + 30), "3" if tier == "quick" else "10"]))
         cases.append(("p4", "lrumt", ["4", str(sd + 3), "3000"]))
         if tier == "thorough":
             eps = [0, 1, 2, 3]
@@ -124,6 +128,7 @@ def gen_pow_cases(ctx, tier, variant):
             cases.append(("p5", "pow", ["1", "2", "3", str(sd + 4)] + ops))
             cases.append(("p6", "pow", ["6", "2", "3", str(sd + 5)] + [o for o in ops if o[0] in "hPC"]))
     else:
+        cases.append(("q0", "serial", [str(sd + 31), "3" if tier == "quick" else "10"]))
         cases.append(("q1", "powhit", ["4", str(sd + 6), "40" if tier == "quick" else "400"]))
         cases.append(("q2", "powhit", ["8", str(sd + 7), "20" if tier == "quick" else "200"]))
         cases.append(("q3", "lrumt", ["4", str(sd + 8), "2000" if tier == "quick" else "20000"]))
